@@ -106,9 +106,10 @@ Definition holds (c : case) (o : obs) : list string :=
 Definition tab_ok (n : nat) (t : list (str * pres)) : bool :=
   forallb (fun e => match snd e with PBytes b => (length b =? n)%nat && all_bytes b | _ => true end) t.
 Definition ref_ok (c : case) : bool :=
-  match cref c, cstage c with
-  | Some b, Some _ => implb (cwell_typed c) (Bool.eqb b (cmember c))
-  | _, _ => true
+  match cref c with
+  | None => true
+  | Some false => negb (cmember c)
+  | Some true => implb (cwell_typed c) (cmember c)
   end.
 Definition validb (c : case) : bool := tab_ok 4 (p4tab c) && tab_ok 16 (p6tab c) && ref_ok c.
 Definition valid (c : case) : Prop := validb c = true.
